@@ -267,7 +267,7 @@ def run(tier, seed, replay=None):
     run.shrinker = still_fails
     exp = {}
     from harness.common import corpus_cases
-    cases = [replay["case"]] if replay else corpus_cases("C05") + \
+    cases = [replay["case"]] if replay else corpus_cases("C05") + rc.empty_run_cases(False) + \
         [rc.make_case(run.rng, tier, damage=False) for _ in range(150 if tier == "quick" else 900)]
     if not replay:
         # single-piece payloads whose SHA-1 / SHA-256 digest is valid UTF-8
